@@ -322,6 +322,34 @@ func (w *World) obsRegionCleanTo(u *Unit, o types.Object, def ast.Expr, only *fl
 		})
 		return hit
 	}
+	// a slice the definition only takes the length of keeps that length through element stores
+	lenOnly := map[types.Object]bool{}
+	{
+		inLen := map[*ast.Ident]bool{}
+		ast.Inspect(def, func(n ast.Node) bool {
+			if call, ok := n.(*ast.CallExpr); ok && len(call.Args) == 1 {
+				if fid, ok := call.Fun.(*ast.Ident); ok && (fid.Name == "len" || fid.Name == "cap") {
+					if _, isB := info.ObjectOf(fid).(*types.Builtin); isB {
+						if aid, ok := ast.Unparen(call.Args[0]).(*ast.Ident); ok {
+							inLen[aid] = true
+						}
+					}
+				}
+			}
+			return true
+		})
+		for r := range roots {
+			if _, isSlice := r.Type().Underlying().(*types.Slice); isSlice {
+				lenOnly[r] = true
+			}
+		}
+		ast.Inspect(def, func(n ast.Node) bool {
+			if id, ok := n.(*ast.Ident); ok && !inLen[id] {
+				delete(lenOnly, info.ObjectOf(id))
+			}
+			return true
+		})
+	}
 	reads := w.readFieldsOfExpr(u, def)
 	// value-owned roots: every variable the definition mentions is a struct/array/basic-typed local or parameter that
 	// is read inside its own storage (no pointer, map or slice on the way) and whose address goes nowhere but into calls
@@ -341,6 +369,11 @@ func (w *World) obsRegionCleanTo(u *Unit, o types.Object, def ast.Expr, only *fl
 			muts = append(muts, s) // synchronisation: another goroutine's writes become visible
 		case flow.SStore:
 			if r, _ := u.C.RootVar(s.LHS); r != nil && roots[r] {
+				if ix, isIx := ast.Unparen(s.LHS).(*ast.IndexExpr); isIx && lenOnly[r] {
+					if xid, plain := ast.Unparen(ix.X).(*ast.Ident); plain && info.ObjectOf(xid) == r {
+						continue
+					}
+				}
 				// a store to a struct field the definition does not read (type-based: any object's field of that
 				// name and type) leaves what it reads unchanged
 				if s.Field != nil && reads != nil && !reads[s.Field] {
